@@ -971,6 +971,10 @@ class Generator:
                 if targ and (ty + '<' + targ.replace(' ', '')) not in re.sub(r'\s', '', h):
                     continue
                 items += f.find_fn(name, o + 1, c)
+            if not items and not trait:
+                # provided (default) method of a trait declaration `trait Ty ... { fn name(..) {..} }`
+                for kw, hdr, o, c in f.blocks(r'(?m)^[ \t]*(?:pub(?:\([a-z]+\))?\s+)?trait\s+%s\b' % re.escape(ty)):
+                    items += [it for it in f.find_fn(name, o + 1, c) if it.text.rstrip().endswith('}')]
         if len(items) != 1:
             raise Inconclusive('fn %s in %s: found %d candidates' % (path, f.path, len(items)))
         return items[0]
